@@ -22,7 +22,7 @@ ASSUMPTIONS = [
     'user functions are total and pure',
 ]
 
-OPTS = gen.Opts(mux=False, max_depth=2, max_len=6, exact=True, tee_precondition=True)
+OPTS = gen.Opts(mux=False, max_depth=2, max_len=6, exact=True, tee_precondition=True, weights={'tee': 6})
 NOEARLY = gen.Opts(mux=False, max_depth=2, max_len=3, exact=True, tee_precondition=True, exclude=('take', 'first'))
 STATELESS = gen.Opts(mux=False, max_depth=2, max_len=5, exact=True, tee_precondition=True, stateless=True)
 
@@ -261,12 +261,12 @@ def coverage_targets(classes, total):
 
 def subs(tier):
     return [
-        Sub('grouped', check_grouped, gen=lambda: keyed_case(OPTS), examples={'quick': 2500, 'thorough': 400000},
+        Sub('grouped', check_grouped, gen=lambda: keyed_case(OPTS), examples={'quick': 1800, 'thorough': 400000},
             doc='group_by(key,[map(value),*P]) under with_memory_store vs rx.from_(group).pipe(*P), per group, exact'),
-        Sub('raw', check_raw, gen=lambda: keyed_case(OPTS, raw=True), examples={'quick': 1200, 'thorough': 200000},
+        Sub('raw', check_raw, gen=lambda: keyed_case(OPTS, raw=True), examples={'quick': 900, 'thorough': 200000},
             doc='raw mux events with sparse / unordered key indices through cast_as_mux_observable + with_memory_store(P)'),
-        Sub('multiplex', check_multiplex, gen=lambda: keyed_case(STATELESS), examples={'quick': 1000, 'thorough': 60000},
+        Sub('multiplex', check_multiplex, gen=lambda: keyed_case(STATELESS), examples={'quick': 600, 'thorough': 60000},
             doc='rs.ops.multiplex(P) (no store) for stateless pipelines'),
-        Sub('assert_fails', check_assert, gen=lambda: keyed_case(OPTS, with_assert=True), examples={'quick': 1000, 'thorough': 60000},
+        Sub('assert_fails', check_assert, gen=lambda: keyed_case(OPTS, with_assert=True), examples={'quick': 600, 'thorough': 60000},
             doc='a failing assert_/assert_1: same exception type, per-group keyed output is a prefix of the plain output'),
     ]
